@@ -368,7 +368,8 @@ def configs(tier):
                  'Planar3DCode(2,2,2)', 'Planar3DCode(3,2,3)', 'Planar3DCode(3,3,3)', 'Planar3DCode(2,4,3)']
         rot = ['RotatedPlanar3DCode(3,3,3)', 'RotatedPlanar3DCode(3,4,3)', 'RotatedPlanar3DCode(4,4,3)',
                'RotatedPlanar3DCode(2,3,2)', 'RotatedToric3DCode(2,2,2)', 'RotatedToric3DCode(3,4,2)',
-               'RotatedToric3DCode(4,4,3)', 'RotatedToric3DCode(2,3,3)']
+               'RotatedToric3DCode(4,4,3)', 'RotatedToric3DCode(2,3,3)', 'RotatedPlanar3DCode(5,5,3)', 'RotatedPlanar3DCode(4,5,4)']
+        cubic += ['Toric3DCode(4,4,4)', 'Toric3DCode(3,5,2)', 'Planar3DCode(4,4,4)', 'Planar3DCode(4,2,5)']
     out = []
     for c in cubic + rot:
         out.append(f'geometry {c}')
